@@ -86,23 +86,17 @@ Definition rp_depths : repo :=
                  ("fields", JArr [JObj [("name", JStr "d"); ("type", JObj [("type", JStr "map"); ("values", JStr "D")])]])]);
    ("n.D", JObj [("type", JStr "fixed"); ("name", JStr "D"); ("namespace", JStr "n"); ("size", JInt 4)])].
 
+(* all closed boolean computations (no existential variables): load, ordered load and the parse of
+   the inlined schema have the same canonical form; the inlined schema is valid; the names are
+   defined once, at first use *)
 Example C19_equiv_diamond :
-  exists p j po s,
-    lres_schema (load rp_diamond "A") = Some (POk p) /\ inline_first_use rp_diamond "A" = POk j /\
-    load_ordered rp_diamond ["D"; "C"; "B"; "A"] = Some (POk po) /\
-    valid_raw j = true /\ spec_names "" j = ["A"; "B"; "D"; "C"] /\
-    to_canonical j = POk s /\ to_canonical p = POk s /\ to_canonical po = POk s.
-Proof. do 4 eexists. vm_compute. repeat split. Qed.
+  equiv_check rp_diamond "A" ["D"; "C"; "B"; "A"] ["A"; "B"; "D"; "C"] = true.
+Proof. vm_compute. reflexivity. Qed.
 
 Example C19_equiv_two_depths :
-  exists p j po s,
-    lres_schema (load rp_depths "n.A") = Some (POk p) /\ inline_first_use rp_depths "n.A" = POk j /\
-    load_ordered rp_depths ["n.D"; "n.B"; "n.A"] = Some (POk po) /\
-    valid_raw j = true /\ spec_names "" j = ["n.A"; "n.B"; "n.D"] /\
-    to_canonical j = POk s /\ to_canonical p = POk s /\ to_canonical po = POk s.
-Proof. do 4 eexists. vm_compute. repeat split. Qed.
+  equiv_check rp_depths "n.A" ["n.D"; "n.B"; "n.A"] ["n.A"; "n.B"; "n.D"] = true.
+Proof. vm_compute. reflexivity. Qed.
 
 Example C19_missing_diamond :
-  exists junk, lres_schema (load (jdrop ["D"] rp_diamond) "A") = Some (PErrUnknown "D" junk) /\
-  load (jdrop ["A"] rp_diamond) "A" = None.
-Proof. eexists. vm_compute. split; reflexivity. Qed.
+  missing_check (jdrop ["D"] rp_diamond) "A" "D" = true /\ load (jdrop ["A"] rp_diamond) "A" = None.
+Proof. split; vm_compute; reflexivity. Qed.
